@@ -218,14 +218,17 @@ func (r *Run) InvOracle() []string {
 
 // ---------------------------------------------------------------- C01 / C03: table = projection of the chain
 
-// firstIndexed is the first block task t is supposed to index: its start, or
-// the head it saw at first contact when start = 0.
+// firstIndexed is the first block task t is supposed to index: its start, or,
+// with no start configured, the head it saw at its most recent contact that
+// found no recorded position (a contact whose step failed afterwards does not
+// count: the next one may see a higher head; once a position is recorded the
+// task never asks Latest(0) again).
 func (r *Run) firstIndexed(t *TaskH) (uint64, bool) {
 	if t.Info.Start > 0 {
 		return t.Info.Start, true
 	}
-	// with start = 0 the step asks Latest(0) (after finding no position)
-	var sawNone bool
+	var sawNone, found bool
+	var head uint64
 	for _, e := range r.W.Rec.Events {
 		if e.Kind != "op" || !r.W.SamePair(e.Tid, t) {
 			continue
@@ -234,15 +237,12 @@ func (r *Run) firstIndexed(t *TaskH) (uint64, bool) {
 		case e.Op.Name == "QLatest" && e.Op.Fail == "" && !e.Op.Some:
 			sawNone = true
 		case e.Op.Name == "RLatest" && sawNone && e.Op.N == 0 && e.Op.Fail == "":
-			// the first successful Latest(0) whose step went on to record a position
-			// is decided later by the caller through the database; all candidates
-			// in a growth history that stay unrecorded are superseded by later ones
-			return e.Op.RNum, true
+			head, found = e.Op.RNum, true
 		case e.Op.Name == "QLatest":
 			sawNone = false
 		}
 	}
-	return 0, false
+	return head, found
 }
 
 // ProjectionOracle compares, at snapshot db, the rows of task t with the
